@@ -42,7 +42,7 @@ structure Variants where
 deriving DecidableEq, Repr
 
 /-- THE switch: flip a field to `.fixed` when the corresponding fix patch is applied to the tree. -/
-def active : Variants := { streamHandoff := .fixed, errorStatus := .fixed, handlerStatus := .pinned }
+def active : Variants := { streamHandoff := .fixed, errorStatus := .fixed, handlerStatus := .fixed }
 
 def allFixed : Variants := { streamHandoff := .fixed, errorStatus := .fixed, handlerStatus := .fixed }
 def allPinned : Variants := { streamHandoff := .pinned, errorStatus := .pinned, handlerStatus := .pinned }
